@@ -11,18 +11,21 @@ package esql
 // the text unquoted.
 
 //@ func (*Graph).GetVertex
+//@   vars g key load parts table id gidField q data row types err res
 //@   property C20
 //@   option prelude=sql
 //@   requires nonnil: g != nil && g.db != nil && g.schema != nil
 //@   callsite DB).QueryRowx requires fixed: sqlfixed(arg1)
 
 //@ func (*Graph).getTableBackedEdge
+//@   vars g key load parts table id edgeSchema gidField q data row types err
 //@   property C20
 //@   option prelude=sql
 //@   requires nonnil: g != nil && g.db != nil && g.schema != nil
 //@   callsite DB).QueryRowx requires fixed: sqlfixed(arg1)
 
 //@ func (*Graph).GetVertexChannel$1
+//@   vars o batches g load table batch idBatch batchMap i parts ids gidField q rows err types data err v r ri err
 //@   property C20
 //@   option prelude=sql
 //@   option load=gdbi
@@ -30,6 +33,7 @@ package esql
 //@   callsite DB).Queryx requires fixed: sqlfixed(arg1)
 
 //@ func (*Graph).GetOutChannel$1
+//@   vars o batches g edgeLabels load table batch idBatch batchMap i parts ids outgoingEdges edgeSchema q dataKey dropKeys rows err types data err r k v ri err
 //@   property C20
 //@   option prelude=sql
 //@   option load=gdbi
@@ -37,6 +41,7 @@ package esql
 //@   callsite DB).Queryx requires fixed: sqlfixed(arg1)
 
 //@ func (*Graph).GetInChannel$1
+//@   vars o batches g edgeLabels load table batch idBatch batchMap i parts ids incomingEdges edgeSchema q dataKey dropKeys rows err types data err r k v ri err
 //@   property C20
 //@   option prelude=sql
 //@   option load=gdbi
@@ -44,6 +49,7 @@ package esql
 //@   callsite DB).Queryx requires fixed: sqlfixed(arg1)
 
 //@ func (*Graph).GetOutEdgeChannel$1
+//@   vars o batches g edgeLabels load table batch idBatch batchMap i parts ids outgoingEdges edgeSchema q rows err fromGid toGid err geid edge r ri err rows err types data err edge r ri err
 //@   property C20
 //@   option prelude=sql
 //@   option load=gdbi
@@ -51,6 +57,7 @@ package esql
 //@   callsite DB).Queryx requires fixed: sqlfixed(arg1)
 
 //@ func (*Graph).GetInEdgeChannel$1
+//@   vars o batches g edgeLabels load table batch idBatch batchMap i parts ids incomingEdges edgeSchema q rows err fromGid toGid err geid edge r ri err rows err types data err edge r ri err
 //@   property C20
 //@   option prelude=sql
 //@   option load=gdbi
